@@ -12,7 +12,9 @@ import common as C
 sc = C.mkscratch("setup")
 try:
     mod = C.assemble(sc)
-    for pkg in ("drvproto", "drvstore", "drvcompact"):
+    for pkg in ("drvproto", "drvstore", "drvcompact", "drvtable"):
+        C.gobuild(mod, pkg, sc + "/" + pkg)
+    for pkg in ():
         C.gobuild(mod, pkg, sc + "/" + pkg)
     print("harness builds")
 finally:
